@@ -128,7 +128,9 @@ static Tok gen_range_tok(Rng &r, bool endless_allowed, char forced_t = 0, int fo
     int n = (int)r.range(1, 6);                       // number of steps from b to c
     if(t == 'c') { d = with_a ? (double)r.range(1, 3) : 1; b = (double)r.range('A', 'a'); if(!with_a && r.chance(0.5)) d = -1; }
     else if(t == 'f' || t == 'd') { d = with_a ? (double)r.range(1, 6) * 0.25 * (r.chance(0.5) ? 1 : -1) : (r.chance(0.5) ? 1 : -1); b = (double)r.range(-8, 8) * 0.5; }
-    else { d = with_a ? (double)(r.range(1, 7) * (r.chance(0.5) ? 1 : -1)) : (r.chance(0.5) ? 1 : -1); b = (double)r.range(-30, 30); }
+    else { d = with_a ? (double)(r.range(1, 7) * (r.chance(0.5) ? 1 : -1)) : (r.chance(0.5) ? 1 : -1); b = (double)r.range(-30, 30);
+           // 64-bit ranges whose step does not fit 32 bits
+           if(t == 'h' && with_a && r.chance(0.2)) { static const double D[] = {3000000000.0, 4294967296.0, 2147483648.0, 5000000000.0, 1099511627776.0}; d = D[r.below(5)] * (r.chance(0.5) ? 1 : -1); k.tags.push_back("range_h_wide_step"); } }
     double a0 = b - d, c = b + n * d;
     if(with_a) { k.text = spell(num(a0)) + " "; k.exp.push_back(xs(num(a0))); }
     k.text += spell(num(b)) + " ... ";
@@ -371,6 +373,18 @@ int main(int argc, char **argv)
             Scanned c = scan_text(printed, 2);
             if(!c.ok) { fail("reprint_rescan", tags, d3, c.why, "accepted"); return; }
             if(!av::same_xv(a.xv, c.xv, &why)) { fail("reprint_changes_values", tags, d3, why + " rescanned=" + av::render(c.av.data(), c.av.size()), "equal values"); return; }
+            // the same with other precisions and line lengths
+            rtosc_print_options po;
+            po.lossless = true; po.floating_point_precision = (int)r.range(0, 9); po.sep = " "; po.linelength = r.chance(0.5) ? 80 : (int)r.range(12, 120);
+            po.compress_ranges = true;      // (writing explicit range objects out is outside the statement: see DESIGN section 9, observations)
+            size_t w2 = rtosc_print_arg_vals(a.av.data(), a.av.size(), buf.data() + 1, buf.size() - 1, &po, 0);
+            std::string printed2(buf.data() + 1);
+            count("reprints_with_options");
+            std::string d4 = desc + fmt(" options{prec=%d line=%d compress=%d} printed=<", po.floating_point_precision, po.linelength, po.compress_ranges) + vis(printed2.substr(0, 400)) + ">";
+            if(w2 != printed2.size()) { fail("reprint_length", tags, d4, fmt("%zu vs strlen %zu", w2, printed2.size()), "equal"); return; }
+            Scanned c2 = scan_text(printed2, 2);
+            if(!c2.ok) { fail("reprint_rescan", tags, d4, c2.why, "accepted"); return; }
+            if(!av::same_xv(a.xv, c2.xv, &why)) { fail("reprint_changes_values", tags, d4, why + " rescanned=" + av::render(c2.av.data(), c2.av.size()), "equal values"); return; }
         }
     });
 }
